@@ -125,7 +125,7 @@ Definition ev_oracle_ok (tc : tce) (t1 t2 : adesc) (x : val) (a : res bool) (s :
      match a with
      | Ok true =>
        match s, x with
-       | SOk _ (Ok (VData d)), VData xv => projects t1 xv d
+       | SOk _ (Ok (VData d)), VData xv => projects_n t1 xv d
        | _, _ => false
        end
      | Ok false => true
@@ -144,7 +144,7 @@ Definition C39_oracle_ok (c : C39_case) : bool :=
     (* the application's typed sample carries the projection as well *)
     (if wf_ty (ty_of t1) && wf_ty (ty_of t2) && wt (ty_of t2) x then
        match a, typed, x with
-       | Ok true, Some d', VData xv => projects t1 xv d'
+       | Ok true, Some d', VData xv => projects_n t1 xv d'
        | Ok true, _, _ => false
        | _, _, _ => true
        end
@@ -162,46 +162,21 @@ Fixpoint find_am (id : Z) (ms : list amember) : option amember :=
 Definition common_any (p : amember -> amember -> bool) (t1 t2 : adesc) : bool :=
   existsb (fun m2 => match find_am (am_id m2) (ad_members t1) with
                      | Some m1 => p m1 m2 | None => false end) (ad_members t2).
-(* one member list is obtained from the other by appending members *)
-Fixpoint ty_prefix (ms ns : list (minfo * ty)) : bool :=
-  match ms, ns with
-  | [], _ => true
-  | (m, t) :: r, (n, u) :: s => minfo_eqb m n && ty_eqb t u && ty_prefix r s
-  | _, [] => false
-  end.
-Definition nested_app_evolution (a b : aty) : bool :=
-  match a, b with
-  | ANested (TStruct Appendable ms), ANested (TStruct Appendable ns) =>
-    negb (ty_eqb (TStruct Appendable ms) (TStruct Appendable ns)) && (ty_prefix ms ns || ty_prefix ns ms)
-  | _, _ => false
-  end.
 (* 1  an integer member is declared assignable from / to ANY hashed (struct/union/enum) type
    2  members of hashed types are never compared: EkComplete := EkComplete for any two hashes
-   3  the XCDR2 reader ignores the DHEADER of a nested appendable structure, so an evolved
-      nested structure is not skipped / is over-read
-   4  the XCDR2 parameter search compares member ids `as u16`
-   5  (todo!() on TkNone / map / SCC / extended type identifiers: repaired in /repo, abb552f;
-      the number is not reused)
-   6  FINAL / APPENDABLE structures: a member that is optional on one side only is accepted,
-      although the optional member is preceded by a presence flag / parameter header
+   3  (nested appendable DHEADER ignored: repaired in /repo, e71c8f0)
+   4  (member ids compared as u16: repaired, 1abc6cd)
+   5  (todo!() on TkNone / map / SCC / extended type identifiers: repaired, abb552f)
+   6  (optionality of corresponding members not compared: repaired, 05c4a3c)
    7  typed (derive) reader: a member the writer sample does not carry (the writer type lacks it,
       or it is an absent optional member there) makes create_sample return None unless the
-      reader member is optional or try_construct = USE_DEFAULT *)
+      reader member is optional or try_construct = USE_DEFAULT
+   The numbers of repaired classes are not reused. *)
 Definition ev_known (t1 t2 : adesc) : N :=
     if common_any (fun m1 m2 => (is_int_aty (am_ty m1) && is_nested (am_ty m2)) ||
                                 (is_nested (am_ty m1) && is_int_aty (am_ty m2))) t1 t2 then 1%N
-    else if common_any (fun m1 m2 => nested_app_evolution (am_ty m1) (am_ty m2)) t1 t2 then 3%N
     else if common_any (fun m1 m2 => is_nested (am_ty m1) && is_nested (am_ty m2) &&
                                      negb (aty_eqb (am_ty m1) (am_ty m2))) t1 t2 then 2%N
-    else if match ad_ext t1, ad_ext t2 with
-            | Mutable, Mutable => negb (ids_u16 t1 && ids_u16 t2)
-            | _, _ => false
-            end then 4%N
-    else if match ad_ext t1, ad_ext t2 with
-            | Mutable, _ | _, Mutable => false
-            | _, _ => existsb (fun mm => negb (Bool.eqb (m_opt (am_info (fst mm))) (m_opt (am_info (snd mm)))))
-                              (combine (ad_members t1) (ad_members t2))
-            end then 6%N
     else 0%N.
 Definition C39_known (c : C39_case) : N :=
   match c_op c with
